@@ -187,7 +187,9 @@ func c01UploadSpecs() []c01Spec {
 	top := 2*c + 2
 	if !mc.Thorough() {
 		for l := 0; l <= top; l += 1 {
-			ls = append(ls, l)
+			if l <= c+2 || l >= 2*c-2 || l%7 == 0 { // quick: the inside of the second chunk every 7th length
+				ls = append(ls, l)
+			}
 		}
 	} else {
 		for l := 0; l <= 5*c+2; l++ {
@@ -212,11 +214,13 @@ type c01Seg struct {
 	feed   int   // >0: FeedPipeline through a reader returning at most feed bytes per Read
 	eofTog bool  // the reader returns the last bytes together with io.EOF
 	reader bool  // FeedPipeline
+	stalls []int // reader: byte offsets at which Read returns (0, nil) before going on (legal for an io.Reader)
+	stallN int   // how many times in a row at each of those offsets (0 = 1)
 }
 
 func (s c01Seg) key() string {
 	if s.reader {
-		return fmt.Sprintf("feed/%d/%v", s.feed, s.eofTog)
+		return fmt.Sprintf("feed/%d/%v/%v/%d", s.feed, s.eofTog, s.stalls, s.stallN)
 	}
 	return "w/" + fmt.Sprint(s.writes)
 }
@@ -276,6 +280,14 @@ func c01SegsBuild(l int, full bool) []c01Seg {
 			add(c01Seg{name: "split@C-1+empty", writes: []int{c - 1, 0, l - (c - 1)}})
 		}
 		add(c01Seg{name: "feed-100000-eof-with-data", reader: true, feed: 100000, eofTog: true})
+		zr := []int{c, l / 2}
+		if full {
+			zr = []int{0, c, l / 2, l}
+		}
+		for _, o := range c01Dedupe(zr, 0, l) {
+			add(c01Seg{name: fmt.Sprintf("feed-C-zero-read@%d", o), reader: true, feed: c, stalls: []int{o}})
+		}
+		add(c01Seg{name: "feed-100000-zero-read-twice@C,l", reader: true, feed: 100000, stalls: c01Dedupe([]int{c, l}, 0, l), stallN: 2})
 		if full {
 			add(c01Seg{name: "step-65537", writes: c01Steps(l, 65537)})
 			if l <= 64 {
@@ -295,6 +307,9 @@ func c01SegsBuild(l int, full bool) []c01Seg {
 			add(c01Seg{name: "split@C-1,C+1", writes: []int{c - 1, 2, l - c - 1}})
 		}
 		add(c01Seg{name: "feed-7-eof-with-data", reader: true, feed: 7, eofTog: true})
+		add(c01Seg{name: "feed-C-zero-read@C|l/2", reader: true, feed: c, stalls: c01Dedupe([]int{c, l / 2}, 0, l)})
+		add(c01Seg{name: "feed-C-zero-read-before-eof", reader: true, feed: c, stalls: []int{l}})
+		add(c01Seg{name: "feed-7-zero-read-twice@0,l/2", reader: true, feed: 7, stalls: c01Dedupe([]int{0, l / 2}, 0, l), stallN: 2})
 		return out
 	}
 	if l == 0 {
@@ -339,17 +354,55 @@ func c01SegsBuild(l int, full bool) []c01Seg {
 		add(c01Seg{name: fmt.Sprintf("feed-%d-eof-with-data", k), reader: true, feed: k, eofTog: true})
 	}
 	add(c01Seg{name: "feed-C-eof-with-data", reader: true, feed: c, eofTog: true})
+	// readers that return (0, nil): once at the start / after k bytes (incl. exactly at a chunk
+	// boundary) / right before EOF, twice in a row, and at several places of one stream
+	for _, o := range c01Dedupe([]int{0, 1, c - 1, c, c + 1, l / 2, 2 * c, l}, 0, l) {
+		add(c01Seg{name: fmt.Sprintf("feed-C-zero-read@%d", o), reader: true, feed: c, stalls: []int{o}})
+	}
+	for _, o := range c01Dedupe([]int{0, c, l}, 0, l) {
+		add(c01Seg{name: fmt.Sprintf("feed-C-zero-read-twice@%d", o), reader: true, feed: c, stalls: []int{o}, stallN: 2})
+	}
+	add(c01Seg{name: "feed-C-zero-reads@0,C,l/2,l", reader: true, feed: c, stalls: c01Dedupe([]int{0, c, l / 2, l}, 0, l)})
+	add(c01Seg{name: "feed-7-zero-read@C", reader: true, feed: 7, stalls: c01Dedupe([]int{c}, 0, l)})
+	add(c01Seg{name: "feed-7-zero-read-twice@l/2", reader: true, feed: 7, stalls: []int{l / 2}, stallN: 2})
+	add(c01Seg{name: "feed-C-zero-read@C-eof-with-data", reader: true, feed: c, eofTog: true, stalls: c01Dedupe([]int{c}, 0, l)})
 	return out
 }
 
 // c01Reader hands out at most k bytes per Read; with eofTog the final bytes come with io.EOF.
+// At every offset listed in stalls (bytes delivered so far) it first returns (0, nil) stallN
+// times -- "nothing happened", which an io.Reader may do at any time -- and no Read crosses a
+// pending stall offset, so the empty read happens exactly there.
 type c01Reader struct {
-	data   []byte
-	k      int
-	eofTog bool
+	data      []byte
+	k         int
+	eofTog    bool
+	stalls    []int
+	stallN    int
+	delivered int
+	stalled   map[int]int
+	zeroReads int
 }
 
 func (r *c01Reader) Read(p []byte) (int, error) {
+	want := r.stallN
+	if want == 0 {
+		want = 1
+	}
+	limit := -1
+	for _, o := range r.stalls {
+		if o == r.delivered && r.stalled[o] < want {
+			if r.stalled == nil {
+				r.stalled = map[int]int{}
+			}
+			r.stalled[o]++
+			r.zeroReads++
+			return 0, nil
+		}
+		if o > r.delivered && (limit < 0 || o < limit) {
+			limit = o
+		}
+	}
 	if len(r.data) == 0 {
 		return 0, io.EOF
 	}
@@ -360,8 +413,12 @@ func (r *c01Reader) Read(p []byte) (int, error) {
 	if n > len(r.data) {
 		n = len(r.data)
 	}
+	if limit >= 0 && r.delivered+n > limit {
+		n = limit - r.delivered
+	}
 	copy(p, r.data[:n])
 	r.data = r.data[n:]
+	r.delivered += n
 	if len(r.data) == 0 && r.eofTog {
 		return n, io.EOF
 	}
@@ -396,7 +453,7 @@ func c01DoUpload(x *mc.X, l int, enc bool, seg c01Seg) *c01Upload {
 		var ref boson.Address
 		var err error
 		if pv := mc.Try(func() {
-			ref, err = FeedPipeline(ctx, p, &c01Reader{data: append([]byte(nil), u.content...), k: seg.feed, eofTog: seg.eofTog})
+			ref, err = FeedPipeline(ctx, p, &c01Reader{data: append([]byte(nil), u.content...), k: seg.feed, eofTog: seg.eofTog, stalls: seg.stalls, stallN: seg.stallN})
 		}); pv != nil {
 			x.Fail("upload-panic", "%v: FeedPipeline panicked: %v", u, pv)
 		}
@@ -501,6 +558,25 @@ func c01TagSeg(x *mc.X, l int, seg c01Seg) {
 		}
 		if seg.eofTog && l > 0 {
 			x.Tag("seg:feedpipeline-data-with-eof")
+		}
+		for _, o := range seg.stalls {
+			if o == l && seg.eofTog && l > 0 {
+				continue // the last bytes come with EOF: the reader is never asked again at l
+			}
+			switch {
+			case o == l:
+				x.Tag("seg:reader-zero-read-right-before-eof")
+			case o == 0:
+				x.Tag("seg:reader-zero-read-at-start")
+			default:
+				x.Tag("seg:reader-zero-read-mid-stream")
+			}
+			if o > 0 && o < l && o%c == 0 {
+				x.Tag("seg:reader-zero-read-at-chunk-boundary")
+			}
+			if seg.stallN >= 2 {
+				x.Tag("seg:reader-zero-read-twice-in-a-row")
+			}
 		}
 		return
 	}
@@ -634,13 +710,13 @@ func TestVerifC01Upload(t *testing.T) {
 	mc.Run(t, mc.Config{ID: "C01", Name: "C01-upload-" + c01Geometry(), MaxDev: -1, Params: map[string]interface{}{
 		"geometry": c01Geometry(), "chunk_size": boson.ChunkSize, "branches": boson.Branches,
 		"files":         c01SpecSumm(specs),
-		"segmentations": "single Write; FeedPipeline(bytes); no write / empty writes (l=0); 2 writes cut at {0,1,C-1,C,C+1,l-1,l}; 3 writes cut at pairs of {1,C-1,C,C+1,2C,2C+1,l-1}; fixed steps {1,7,C-1,C,C+1,2C+3,4C,5C+1}; C-steps with empty writes between; growing 1,2,3,..; FeedPipeline through readers returning at most {1,7,C-1} bytes, final bytes with or without io.EOF; (real: single, FeedPipeline, step C+1, step 2C+3, split@1, C-1|empty|rest, reader 100000+EOF-with-data, thorough: step 65537, step 1 for l<=64)",
+		"segmentations": "single Write; FeedPipeline(bytes); no write / empty writes (l=0); 2 writes cut at {0,1,C-1,C,C+1,l-1,l}; 3 writes cut at pairs of {1,C-1,C,C+1,2C,2C+1,l-1}; fixed steps {1,7,C-1,C,C+1,2C+3,4C,5C+1}; C-steps with empty writes between; growing 1,2,3,..; FeedPipeline through readers returning at most {1,7,C-1} bytes, final bytes with or without io.EOF; FeedPipeline readers returning (0,nil): once after {0,1,C-1,C,C+1,l/2,2C,l} bytes, twice in a row after {0,C,l}, at 0+C+l/2+l of one stream, with 7-byte reads at C and twice at l/2, at C with data-with-EOF; (real: single, FeedPipeline, step C+1, step 2C+3, split@1, C-1|empty|rest, reader 100000+EOF-with-data, (0,nil) once after {0,C,l/2,l} bytes, twice after C and l, thorough: step 65537, step 1 for l<=64)",
 		"read_back":     "Size; sequential Read(buffer C) to EOF; ReadAt(len l, off 0); Seek(l/2,start)+Read to EOF with buffer C+1; every stored chunk cac.Valid"}},
 		func(x *mc.X) {
 			si := x.Choose(len(specs))
 			sp := specs[si]
-			// quick: files beyond 17 chunks (12 lengths up to 65C+1) get the reduced segmentation set
-			segs := c01Segs(sp.l, mc.Thorough() || (c01Scaled() && sp.l <= 17*int(boson.ChunkSize)))
+			// quick: files beyond 5C+1 (19 lengths up to 65C+1) get the reduced segmentation set
+			segs := c01Segs(sp.l, mc.Thorough() || (c01Scaled() && sp.l <= 5*int(boson.ChunkSize)+1))
 			if !c01Scaled() && sp.enc {
 				// a real encrypted chunk costs ~0.3 s to write and read
 				if mc.Thorough() {
@@ -677,6 +753,13 @@ func TestVerifC01Upload(t *testing.T) {
 
 func c01WritesSumm(s c01Seg) string {
 	if s.reader {
+		if len(s.stalls) > 0 {
+			n := s.stallN
+			if n == 0 {
+				n = 1
+			}
+			return fmt.Sprintf("FeedPipeline(reader: <=%d bytes per Read, last bytes with EOF=%v, %dx (0,nil) after %v bytes)", s.feed, s.eofTog, n, s.stalls)
+		}
 		return fmt.Sprintf("FeedPipeline(reader: <=%d bytes per Read, last bytes with EOF=%v)", s.feed, s.eofTog)
 	}
 	if len(s.writes) <= 12 {
@@ -775,11 +858,22 @@ func TestVerifC01ReadProg(t *testing.T) {
 	full := mc.Thorough()
 	mc.Run(t, mc.Config{ID: "C01", Name: "C01-readprog-" + c01Geometry(), MaxDev: -1, Params: map[string]interface{}{
 		"geometry": c01Geometry(), "files": c01SpecSumm(specs),
-		"segmentations": map[bool]string{true: "the full set of C01-upload", false: "single Write, FeedPipeline(bytes), step 7, step C+1, step 2C+3, split@1, cuts at C-1 and C+1, FeedPipeline reader 7 bytes + data-with-EOF (real: the real-geometry set)"}[full],
+		"segmentations": map[bool]string{true: "the full set of C01-upload", false: "single Write, FeedPipeline(bytes), step 7, step C+1, step 2C+3, split@1, cuts at C-1 and C+1, FeedPipeline reader 7 bytes + data-with-EOF, (0,nil) at C|l/2, before EOF, twice at 0 and l/2 (real: the real-geometry set)"}[full],
 		"read_programs": "sequential Read to EOF with buffer {1 (l<=5C), C-1, C, C+1, l, l+1}; ReadAt(off in {0,1,C-1,C,C+1,4C-1,4C,4C+1,16C,16C+1,l/2,l-1,l,l+1}, len in {0,1,C,l-off,l}); Seek(w1,o1);Seek(w2,o2);Read(C+1) for w in {start,current,end}, o in {0,1,l/2,l} (real: o in {1,l/2})"}},
 		func(x *mc.X) {
 			sp := specs[x.Choose(len(specs))]
 			segs := c01Segs(sp.l, full)
+			if !c01Scaled() && !full {
+				// real geometry, quick: the segmentations without empty reads plus the one reader with a
+				// (0,nil) read exactly at the first chunk boundary
+				var keep []c01Seg
+				for _, sg := range segs {
+					if len(sg.stalls) == 0 || (len(sg.stalls) == 1 && sg.stalls[0] == c && sg.stallN == 0) {
+						keep = append(keep, sg)
+					}
+				}
+				segs = keep
+			}
 			seg := segs[x.Choose(len(segs))]
 			progs := c01Progs(sp.l)
 			pr := progs[x.Choose(len(progs))]
